@@ -392,7 +392,6 @@ def _check_second(case, mon):
         mon.violation("second-order:component-placement",
                       {"args": sorted(case["args"]), "klass": case["klass"]})
         return
-    cur = K.copy()          # reference state of ``t``
     rotated = False
     for op in case["ops"]:
         kind = op[0]
@@ -421,7 +420,6 @@ def _check_second(case, mon):
             tr1 = np.trace(V, axis1=0, axis2=1)
             mon.close("rotate_trace", tr1 / lam[:, 0], tr0 / lam[:, 0], 1e-11,
                       "second-order:rotate-changes-trace", scale=1.0)
-            cur = want
             rotated = True
         elif kind == "restrict":
             idx = _cells_index(op[1])
@@ -459,27 +457,17 @@ def _check_second(case, mon):
             elif not np.array_equal(c.values, before):
                 mon.violation("second-order:copy-differs", {})
             _mutate_and_compare(mon, t, c, ["values"], op[1], "second-order")
-    del cur
 
 
-def _check_fourth_symmetry(mon, V, where, exact=True):
+def _check_fourth_symmetry(mon, V, where):
     mon.count("symmetry_checks_fourth", V.shape[2])
     if V.shape[:2] != (9, 9):
         mon.violation("fourth-order:shape", {"shape": list(V.shape), "where": where})
         return
-    if exact:
-        if not np.array_equal(V, V.transpose(1, 0, 2)):
-            mon.violation("fourth-order:not-major-symmetric", {"where": where})
-        if not (np.array_equal(V, V[_PAIR]) and np.array_equal(V, V[:, _PAIR])):
-            mon.violation("fourth-order:not-minor-symmetric", {"where": where})
-    else:
-        sc = max(float(np.max(np.abs(V))), 1e-300)
-        mon.close("fourth_major_symmetry", V, V.transpose(1, 0, 2), TOL,
-                  "fourth-order:not-major-symmetric", scale=sc, detail=where)
-        mon.close("fourth_minor_symmetry_rows", V, V[_PAIR], TOL,
-                  "fourth-order:not-minor-symmetric", scale=sc, detail=where)
-        mon.close("fourth_minor_symmetry_cols", V, V[:, _PAIR], TOL,
-                  "fourth-order:not-minor-symmetric", scale=sc, detail=where)
+    if not np.array_equal(V, V.transpose(1, 0, 2)):
+        mon.violation("fourth-order:not-major-symmetric", {"where": where})
+    if not (np.array_equal(V, V[_PAIR]) and np.array_equal(V, V[:, _PAIR])):
+        mon.violation("fourth-order:not-minor-symmetric", {"where": where})
 
 
 def _lame_form(mu, lmbda):
@@ -511,11 +499,9 @@ def _check_fourth(case, mon):
     # integer basis matrices and the Lame part are summed in a fixed order by the
     # constructor; the reference sums in the same order, so agreement is to round-off
     mon.close("fourth_values", t.values, want, TOL, "fourth-order:lame-form", scale=sc)
-    _check_fourth_symmetry(mon, t.values, "constructor", exact=not other)
-    if other:
-        # with extra fields the sum a*f1 + b*f2 is evaluated entry by entry in the same
-        # order for symmetric partners, so exact symmetry is still expected
-        _check_fourth_symmetry(mon, t.values, "constructor+fields", exact=True)
+    # symmetric partner entries are sums of the same operands in the same order (also with
+    # extra fields), so the symmetries hold exactly, not only to round-off
+    _check_fourth_symmetry(mon, t.values, "constructor+fields" if other else "constructor")
     fields = ["mu", "lmbda"] + list(other)
     if sorted(t.constitutive_parameters) != sorted(fields):
         mon.violation("fourth-order:constitutive-parameter-list",
